@@ -330,13 +330,8 @@ func (m *Machine) check(extra *Term, wantModel bool) (SatResult, map[string]stri
 		// obligations: escalate before giving up - non-incremental z3 5.1, then a longer budget,
 		// then z3 4.8.12 (a different search) - so that borderline queries do not make the verdict
 		// depend on machine load
-		r, model, errs = m.sol.OneShot([]string{n}, wantModel, vars, m.cfg.TimeoutMs)
-		if r == RUnknown && errs == "" {
-			r, model, errs = m.sol.OneShot([]string{n}, wantModel, vars, 3*m.cfg.TimeoutMs)
-		}
-		if r == RUnknown && errs == "" {
-			r, model, errs = m.sol.OneShotWith(SZ3, []string{n}, wantModel, vars, 3*m.cfg.TimeoutMs)
-		}
+		// (the two are raced: the first definite answer wins)
+		r, model, errs = m.sol.OneShotRace([]string{n}, wantModel, vars, 3*m.cfg.TimeoutMs)
 	}
 	if slowLog != nil && time.Since(tq) > 500*time.Millisecond {
 		slowLog(fmt.Sprintf("%.1fs %s at %s choices=%v query=%s", time.Since(tq).Seconds(), r, m.position(), m.choices, extra.String()))
